@@ -427,7 +427,7 @@ OPEN_ITEMS = [
     "C06_unify_complete (unbounded, typed axes) -- bounded stop-gaps C06_unify_complete_upto12 / C06_unify_complete_2d_upto6 plus the brute-force coincidence oracle on every implementation unifier",
     "fuel sufficiency of unify beyond the bound (a divergence of the model would show as verdict 14)",
     "binary / commutative / sub refinement with broadcasting, and sizes_agree as a consequence of typing (the theorems carry the boolean guards no_broadcast and sizes_agree)",
-    "refinement theorems for expand, getitem, default_to, freshen/clone, post_init: modelled and model-checked through pt_check, proofs open",
+    "refinement theorems for getitem, default_to, freshen/clone, post_init: modelled and model-checked through pt_check, proofs open",
     "C06_repr_inv preservation by the constructors: replaced by the run-time monitor and C06_repr_inv_wf / C06_repr_inv_injective",
     "reciprocal laws of div on xval (C06_sub_like_refines_partial is generic in them)",
     "where / stack / any / log_softmax / reshape / view / copy_ / project / dim_to_dense / iteration / tolist / to / exp / expm1 / log / logaddexp: correspondence only (no Coq model)",
